@@ -449,6 +449,13 @@ def signature_rules(chk, S):
 
     r7 = chk.rule("R-C14-7", "the public factories and constraint constructors of the three models and of the abstract interface have the same parameters with the same default values", floor=4)
 
+    def lit(d_):
+        """A default as a value where it is a literal (1.0 == 1. == 1e0), as source text otherwise."""
+        try:
+            return repr(ast.literal_eval(d_))
+        except Exception:  # noqa: BLE001
+            return ast.unparse(d_)
+
     def sig(fn):
         """Positional parameters by position (their names are the implementer's business), keyword-only parameters by name; each with its default."""
         a = fn.args
@@ -456,9 +463,9 @@ def signature_rules(chk, S):
         pos = (a.posonlyargs + a.args)[1:]  # without self
         dpos = [None] * (len(a.posonlyargs + a.args) - len(a.defaults)) + list(a.defaults)
         for i_, (p_, d_) in enumerate(zip(pos, dpos[1:])):
-            out.append((f"positional #{i_}", None if d_ is None else ast.unparse(d_)))
+            out.append((f"positional #{i_}", None if d_ is None else lit(d_)))
         for p_, d_ in zip(a.kwonlyargs, a.kw_defaults):
-            out.append((p_.arg, None if d_ is None else ast.unparse(d_)))
+            out.append((p_.arg, None if d_ is None else lit(d_)))
         return out
 
     classes = {fam: S.p.find_class(f"{mod}.{cls}") for fam, mod, cls in SSMS}
